@@ -188,6 +188,13 @@ def gen(tier, rng):
                     cases.append(rz.img_case(op, pt, w, 3, src_c=cont, dst_c=cont if op.endswith("_inplace") else None,
                                              src_lay={"k": "image_ref", "guard": 1}, dst_lay={"k": "slice", "guard": 1}, cpu=cpu, log=log,
                                              chk=("ret_ok", "outside") + ((chk,) if cpu != "none" else ()), g=g, echo=echo))
+                # runs of transparent black / saturated / opaque / transparent pixels: whole vectors all zero, all opaque, mixed
+                g += 1
+                cont3 = {"g": "data", "v": rz.runs_pixels(pt, w * 3, random.Random(seed + 2))}
+                for cpu in rz.CPUS:
+                    cases.append(rz.img_case(op, pt, w, 3, src_c=cont3, dst_c=cont3 if op.endswith("_inplace") else None,
+                                             src_lay={"k": "image_ref", "guard": 1}, dst_lay={"k": "slice", "guard": 1}, cpu=cpu, log=log,
+                                             chk=("ret_ok", "outside") + ((chk,) if cpu != "none" else ()), g=g, echo=echo))
                 if info["comp"] != "f32":
                     # adversarial pairs: tiny and extreme alphas under full-range colours (quotients far beyond the range)
                     g += 1
